@@ -332,6 +332,13 @@ func (w *World) callEnv(g *ssa.Function, call ssa.CallInstruction, up *env) *env
 	args = append(args, cc.Args...)
 	for i, p := range g.Params {
 		if i < len(args) {
+			if al, ok := stripConv(args[i]).(*ssa.Alloc); ok && al.Parent() != nil {
+				b := w.builderFor(al.Parent())
+				if !b.rd.captured[al] {
+					params[p.Name()] = up.apply(&Expr{Op: "ref", Args: []*Expr{b.rd.at(call, al, nil)}, V: al})
+					continue
+				}
+			}
 			params[p.Name()] = up.apply(w.ExprOf(args[i]))
 		}
 	}
